@@ -69,13 +69,13 @@ def make_harness(cfg, tw):
                 if model == "sup":
                     o = sup.SupervisedOPF(**kw)
                     o.fit(X, Y, I)
-                    p = o.predict(Xq, Iq)
+                    p = o.predict(Xq, Iq) if nte else []
                 elif model == "semi":
                     o = semi.SemiSupervisedOPF(**kw)
                     nu = cfg["nu"]
                     Xu = symnp.SArr.from_list([[float(ntr + i)] for i in range(nu)])
                     o.fit(X, Y, Xu, I)
-                    p = o.predict(Xq, Iq)
+                    p = o.predict(Xq, Iq) if nte else []
                 else:
                     o = uns.UnsupervisedOPF(min_k=1, max_k=cfg.get("k", 1), **kw)
                     o.fit(X, Y, I)
